@@ -443,7 +443,7 @@ CHECKS["C16"] = dict(
     category="proof",
     text=("Lean model of PluginManager (loaded modules, granted names), of every member of Context that writes or copies the trusted "
           "bit (constructors, trusted(), clone, purge, child shells / runtimes, trace, parsingBegin/End) and of the compile-time "
-          "tests of constructor calls, import and include. Theorems (BlocV.Proofs.C16, 17) over ALL host histories — unban, clear, "
+          "tests of constructor calls, import and include. Theorems (BlocV.Proofs.C16, 18) over ALL host histories — unban, clear, "
           "new / trust / clone / free / purge / trace-switch of any context, compile of any text accepted or rejected, run of any "
           "executable incl. trace statements and run-time errors: object_implies_granted (about the context that COMPILED the "
           "constructor: trusted, or the module granted, at compilation), untrusted_history_objects_granted (unconditional for "
